@@ -37,9 +37,9 @@ ANCHORS = ['debian.debian_support:NativeVersion._compare',
 MUST_REACH = ['debian.debian_support:NativeVersion._compare', 'debian.debian_support:version_compare',
               'debian.debian_support:BaseVersion.__hash__']
 FLOORS = {'quick': {'nontrivial': 20000, 'monitors': {'M.pair': 100000, 'M.hash': 200, 'M.triple': 20000},
-                    'counters': {'pair:long-digit-run': 25000, 'pair:long-digit-run-both': 1400, 'rebind:value-replaced': 1500, 'rebind:component-assigned': 4500, 'rebind:boundary-moved': 800, }},
+                    'counters': {'pair:long-digit-run': 25000, 'pair:long-digit-run-both': 1400, 'rebind:value-replaced': 1500, 'rebind:component-assigned': 4500, 'rebind:boundary-moved': 800, 'pair:lowered-int-limit': 100000, 'pair:lowered-int-limit:both-runs-beyond-it': 150, 'derived:copy': 100, 'derived:deepcopy': 100, 'derived:pickle': 100, 'derived:ctor-from-str-subclass': 100, 'derived:copy-of-rebound': 100}},
           'thorough': {'nontrivial': 500000, 'monitors': {'M.pair': 4000000, 'M.hash': 1800, 'M.triple': 500000},
-                       'counters': {'pair:long-digit-run': 150000, 'pair:long-digit-run-both': 1400, 'rebind:value-replaced': 60000, 'rebind:component-assigned': 60000, 'rebind:boundary-moved': 6000}}}
+                       'counters': {'pair:long-digit-run': 150000, 'pair:long-digit-run-both': 1400, 'rebind:value-replaced': 60000, 'rebind:component-assigned': 60000, 'rebind:boundary-moved': 6000, 'pair:lowered-int-limit': 1500000, 'pair:lowered-int-limit:both-runs-beyond-it': 60, 'derived:copy': 6000, 'derived:deepcopy': 6000, 'derived:pickle': 6000, 'derived:ctor-from-str-subclass': 6000, 'derived:copy-of-rebound': 6000}}}
 
 POOL = {'quick': 400, 'thorough': 2800}
 TRIPLES = {'quick': 120000, 'thorough': 3000000}
@@ -106,6 +106,9 @@ def long_digit_runs():
         out.append('0' * k + '1:1')
         out.append('0' * k + ':1')
     # beyond the interpreter's own limit for str <-> int conversion (4300 digits by default since 3.11)
+    # around a LOWERED limit (sys.set_int_max_str_digits(640) / PYTHONINTMAXSTRDIGITS: every other shard runs with it)
+    out += ['1.' + '3' * 640, '1.' + '3' * 641, '1.00' + '3' * 641, '1-' + '3' * 700, '3:1.' + '4' * 1000 + '-1', '1.' + '4' * 999 + '5-1',
+            '1.' + '5' * 2000, '1.' + '5' * 1999 + '6']
     out += ['1.' + '7' * 4300, '1.' + '7' * 4301, '1.000' + '7' * 4301, '1.' + '7' * 4300 + '8', '2:1-' + '9' * 5000, '1-' + '0' * 4400 + '5']
     return out
 
@@ -183,8 +186,16 @@ def nontrivial_pair(a, b):
     return a != b and a[0] == b[0]
 
 
+LOWERED_INT_LIMIT = 640
+
+
 def setup(ctx):
+    import sys
     from debian import debian_support as ds
+    if ctx.shard % 2 == 1:
+        # ambient process state: the interpreter's str <-> int conversion limit is the caller's to lower
+        sys.set_int_max_str_digits(LOWERED_INT_LIMIT)
+    ctx.extra['int_max_str_digits_of_the_shards'] = {'limit=%d' % sys.get_int_max_str_digits()}
     ctx.extra['version_class'] = ds.Version.__mro__[1].__name__
     ctx.extra['dpkg_crosscheck'] = {'pairs': 0, 'disagreements': 0}
 
@@ -219,7 +230,7 @@ def cases(ctx):
     # operands that are not fresh Version(str) objects: copies (copy / deepcopy / pickle / Version(version)), objects built
     # from str subclasses, str-subclass operands, objects that sit in sorted() / min / max / set / dict: same relation
     r = ctx.rng('derived')
-    for i in range(ctx.size(900, 40000)):
+    for i in range(ctx.size(500, 40000)):
         vs = [r.choice(pool) for _ in range(r.randint(3, 6))]
         yield {'kind': 'derived', 'vs': vs, 'how': [r.choice(DERIVED_HOWS) for _ in vs], 'touch': r.randint(0, 3)}
     r = ctx.rng('triples')
@@ -237,6 +248,12 @@ def check_pair(ctx, a, b, va, vb):
     if nontrivial_pair(a, b):
         ctx.nontrivial(case={'a': a, 'b': b})
     small = {'kind': 'pair', 'a': a, 'b': b}
+    import sys
+    if sys.get_int_max_str_digits() != 4300:
+        small['int_limit'] = sys.get_int_max_str_digits()
+        ctx.count('pair:lowered-int-limit')
+        if max(len(a), len(b)) > LOWERED_INT_LIMIT and min(len(a), len(b)) > LOWERED_INT_LIMIT:
+            ctx.count('pair:lowered-int-limit:both-runs-beyond-it')
     if is_long_run(a) or is_long_run(b):
         ctx.count('pair:long-digit-run')
         if is_long_run(a) and is_long_run(b):
@@ -288,6 +305,9 @@ def check_triple(ctx, a, b, c):
 def run_case(ctx, case):
     from debian import debian_support as ds
     kind = case['kind']
+    if case.get('int_limit') is not None:
+        import sys
+        sys.set_int_max_str_digits(case['int_limit'])
     if kind == 'row':
         a = case['a']
         va = ds.Version(a)
